@@ -44,13 +44,6 @@ Lemma default_ns_qname_reset_refuted :
   /\ lxml_sound_b default_config w_default_ns_qname_reset_user w_default_ns_qname_reset_evs = false.
 Proof. vm_compute. repeat split; reflexivity. Qed.
 
-Definition w_hostile_uri_user : nsmap := (@nil (option str * str)).
-Definition w_hostile_uri_evs : list wevent := [(WStart ((Some [117;114;110;58;97;34;98]%N), [114]%N)); (WEnd ((Some [117;114;110;58;97;34;98]%N), [114]%N))].
-Lemma hostile_uri_refuted :
-  only_clause_fails 2 (clause_vector default_config w_hostile_uri_user w_hostile_uri_evs) = true
-  /\ native_sound_b default_config w_hostile_uri_user w_hostile_uri_evs = false.
-Proof. vm_compute. repeat split; reflexivity. Qed.
-
 Definition w_bad_name_user : nsmap := (@nil (option str * str)).
 Definition w_bad_name_evs : list wevent := [(WStart (None, [114]%N)); (WAttr (None, [97;32;98]%N) (VAtom (AText [49]%N))); (WEnd (None, [114]%N))].
 Lemma bad_name_refuted :
@@ -129,6 +122,14 @@ Example adjacent_data_fixed :
   writer_guard default_config w_adjacent_data_user w_adjacent_data_evs = true
   /\ native_sound_b default_config w_adjacent_data_user w_adjacent_data_evs = true
   /\ lxml_sound_b default_config w_adjacent_data_user w_adjacent_data_evs = true.
+Proof. vm_compute. repeat split; reflexivity. Qed.
+
+Definition w_hostile_uri_user : nsmap := (@nil (option str * str)).
+Definition w_hostile_uri_evs : list wevent := [(WStart ((Some [117;114;110;58;97;34;98]%N), [114]%N)); (WEnd ((Some [117;114;110;58;97;34;98]%N), [114]%N))].
+(* the lxml sink model abstains on this URI (real lxml raises ValueError): native writer only *)
+Example hostile_uri_fixed :
+  writer_guard default_config w_hostile_uri_user w_hostile_uri_evs = true
+  /\ native_sound_b default_config w_hostile_uri_user w_hostile_uri_evs = true.
 Proof. vm_compute. repeat split; reflexivity. Qed.
 
 Lemma native_sound_unguarded_refuted :
